@@ -55,7 +55,17 @@ pub fn build_arg(a: &Value) -> Arg {
         .require_equals(a["req_eq"].as_bool().unwrap())
         .exclusive(a["exclusive"].as_bool().unwrap())
         .ignore_case(a["ignore_case"].as_bool().unwrap())
-        .hide(a["hide"].as_bool().unwrap());
+        .hide(a["hide"].as_bool().unwrap())
+        .hide_short_help(a["hide_short"].as_bool().unwrap_or(false))
+        .hide_long_help(a["hide_long"].as_bool().unwrap_or(false))
+        .next_line_help(a["nlh"].as_bool().unwrap_or(false))
+        .hide_possible_values(a["hide_pv"].as_bool().unwrap_or(false));
+    if let Some(o) = a["disp"].as_i64().filter(|o| *o >= 0) {
+        x = x.display_order(o as usize);
+    }
+    if !bytes_of(&a["help"]).is_empty() {
+        x = x.help(s_of(&a["help"]));
+    }
     if let Some(c) = ch(&a["delim"]) {
         x = x.value_delimiter(c);
     }
@@ -118,7 +128,17 @@ pub fn build_arg(a: &Value) -> Arg {
         "string" => {}
         "os" => x = x.value_parser(clap::value_parser!(std::ffi::OsString)),
         "int" => x = x.value_parser(clap::value_parser!(i64).range(vp["lo"].as_i64().unwrap()..=vp["hi"].as_i64().unwrap())),
-        "possible" => x = x.value_parser(PossibleValuesParser::new(vp["pvs"].as_array().unwrap().iter().map(s_of).collect::<Vec<_>>())),
+        "possible" => {
+            let pvs: Vec<clap::builder::PossibleValue> = vp["pvs"].as_array().unwrap().iter().enumerate().map(|(i, n)| {
+                let mut pv = clap::builder::PossibleValue::new(s_of(n)).hide(vp["pv_hide"][i].as_bool().unwrap_or(false));
+                let h = bytes_of(&vp["pv_help"][i]);
+                if !h.is_empty() {
+                    pv = pv.help(String::from_utf8_lossy(&h).into_owned());
+                }
+                pv
+            }).collect();
+            x = x.value_parser(PossibleValuesParser::new(pvs))
+        }
         "boolish" => x = x.value_parser(clap::builder::BoolishValueParser::new()),
         "falsey" => x = x.value_parser(clap::builder::FalseyValueParser::new()),
         "nonempty" => x = x.value_parser(clap::builder::NonEmptyStringValueParser::new()),
@@ -146,6 +166,12 @@ pub fn build_cmd(c: &Value) -> Command {
             cmd = cmd.short_flag_alias(c);
         }
     }
+    if c["hide"].as_bool().unwrap_or(false) {
+        cmd = cmd.hide(true);
+    }
+    if !bytes_of(&c["about"]).is_empty() {
+        cmd = cmd.about(s_of(&c["about"]));
+    }
     if c["version"].as_bool().unwrap() {
         cmd = cmd.version("1.0");
     }
@@ -161,6 +187,7 @@ pub fn build_cmd(c: &Value) -> Command {
     if on("disable_version_flag") { cmd = cmd.disable_version_flag(true); }
     if on("disable_help_subcommand") { cmd = cmd.disable_help_subcommand(true); }
     if on("propagate_version") { cmd = cmd.propagate_version(true); }
+    if on("next_line_help") { cmd = cmd.next_line_help(true); }
     if on("arg_required_else_help") { cmd = cmd.arg_required_else_help(true); }
     if on("allow_missing_positional") { cmd = cmd.allow_missing_positional(true); }
     if on("subcommand_required") { cmd = cmd.subcommand_required(true); }
